@@ -44,36 +44,145 @@ let show_gt = function
   | Some g -> "G[" ^ String.concat "," (List.map (fun (p, ph) ->
       (match p with None -> "." | Some p -> dec_of_z p) ^ (if ph then "p" else "u")) g) ^ "]"
 
-let both w back = match wres w with
-  | Some bs, h -> Some (h ^ " " ^ back bs)
-  | None, h -> Some (h ^ " -")
+(* the whole record of a micro case: the fixed micro site, one INFO field or one FORMAT series *)
+let ascii s = List.init (String.length s) (fun i -> n_of_int (Char.code s.[i]))
+let get_map = function Some m -> m | None -> failwith "map"
+let micro_site ns =
+  { s_chrom = ascii "c"; s_pos = Some (z_of_int 1); s_rlen = z_of_int 1; s_qual = None; s_ids = [];
+    s_ref = ascii "A"; s_alts = []; s_filters = []; s_n_sample = z_of_int ns }
+type ctx = I of string | F of string * int
+let rec_obs c w =
+  let key = (match c with I k -> k | F (k, _) -> k) in
+  let strings = get_map (build_strings [(ascii key, None)]) and contigs = get_map (build_contigs [(ascii "c", None)]) in
+  let r = (match c with
+    | I _ -> enc_record strings contigs (micro_site 0) [(ascii key, w)] [] false
+    | F (_, ns) -> enc_record strings contigs (micro_site ns) [] [(ascii key, w)] true) in
+  " R:" ^ snd (wres r)
+
+let both c w back = match wres w with
+  | Some bs, h -> Some (h ^ " " ^ back bs ^ rec_obs c w)
+  | None, h -> Some (h ^ " -" ^ rec_obs c w)
 
 let samples s = List.map (fun t -> if t = "." then None else Some (opt_list t)) (split_on ';' s)
 let scalars s = List.map (fun t -> if t = "." then None else Some (z_of_dec t)) (split_on ';' s)
 
+(* Character / String kinds: elements are hex (`_` = empty string), `.` = missing, `e` = no element *)
+let opt_hex_list s = if s = "e" then [] else
+  List.map (fun t -> if t = "." then None else Some (bytes_of_hex t)) (split_on ',' s)
+let byte_of_hex t = match bytes_of_hex t with [c] -> c | _ -> failwith "char"
+let opt_char_list s = if s = "e" then [] else
+  List.map (fun t -> if t = "." then None else Some (byte_of_hex t)) (split_on ',' s)
+let per_sample f s = List.map (fun t -> if t = "." then None else Some (f t)) (split_on ';' s)
+let hexc c = Printf.sprintf "%x" (int_of_n c)
+let show_sval = function
+  | SNone -> "."
+  | SChar c -> "c" ^ hexc c
+  | SStr x -> "s" ^ hex_of_bytes x
+  | SChars l -> show_list "C" hexc l
+  | SStrs l -> show_list "S" hex_of_bytes l
+(* the reader's failure mode on these kinds (panic or error) is one observation *)
+let rfail f = function ROk a -> f a | RErr | RPanic -> "Fail"
+let show_samples f l = String.concat ";" (List.map (function None -> "." | Some x -> f x) l)
+
+(* string maps: lines `K:name:idx` / `name:idx` (idx or `-`), `_` = no line *)
+let text_of bs = String.concat "" (List.map (fun b -> String.make 1 (Char.chr (int_of_n b))) bs)
+let sm_lines s = if s = "_" then [] else
+  List.map (fun t ->
+    let p = split_on ':' t in
+    let n, i = (match p with [_; n; i] -> n, i | [n; i] -> n, i | _ -> failwith "line") in
+    (ascii n, if i = "-" then None else Some (nat_of_int (int_of_string i)))) (split_on ',' s)
+let sm_dump m names =
+  let rec trim = function None :: r -> trim r | l -> l in
+  let slots = List.rev (trim (List.rev m.entries)) in
+  let seen = ref [] in
+  let look = List.filter_map (fun n ->
+    if List.mem n !seen then None else begin
+      seen := n :: !seen;
+      Some (text_of n ^ "=" ^ (match get_index_of m n with Some i -> string_of_int (int_of_nat i) | None -> "-"))
+    end) names in
+  "[" ^ String.concat "," (List.map (function None -> "-" | Some n -> text_of n) slots) ^ "]{" ^ String.concat "," look ^ "}"
+let sm_both ss cs =
+  match build_strings ss, build_contigs cs with
+  | Some a, Some b -> "S" ^ sm_dump a (pASS :: List.map fst ss) ^ ";C" ^ sm_dump b (List.map fst cs)
+  | _ -> "Err"
+
+(* `hd`: a record head.  args: string lines, contig lines, chrom, pos|., rlen, qual|., ids (hex,
+   comma separated, `e` = none), ref hex, alts, filters (names, `e`), INFO flags (names, `e`),
+   n_sample, FORMAT Integer scalar series `key=a;b;.|key=...` or `e` *)
+let names s = if s = "e" then [] else List.map ascii (split_on ',' s)
+let hexes s = if s = "e" then [] else List.map bytes_of_hex (split_on ',' s)
+let show_strs sep l = String.concat sep (List.map hex_of_bytes l)
+let hd a =
+  match build_strings (sm_lines a.(0)), build_contigs (sm_lines a.(1)) with
+  | Some strings, Some contigs ->
+    let ns = int_of_string a.(11) in
+    let site = { s_chrom = ascii a.(2);
+                 s_pos = (if a.(3) = "." then None else Some (z_of_dec a.(3)));
+                 s_rlen = z_of_dec a.(4);
+                 s_qual = (if a.(5) = "." then None else Some (z_of_dec a.(5)));
+                 s_ids = hexes a.(6); s_ref = bytes_of_hex a.(7); s_alts = hexes a.(8);
+                 s_filters = names a.(9); s_n_sample = z_of_int ns } in
+    let infos = List.map (fun k -> (k, enc_info_missing)) (names a.(10)) in
+    let fmts = if a.(12) = "e" then [] else
+      List.map (fun t -> match split_on '=' t with
+        | [k; v] -> (ascii k, enc_fmt_int (scalars v))
+        | _ -> failwith "fmt") (split_on '|' a.(12)) in
+    let r = enc_record strings contigs site infos fmts (ns > 0 && fmts <> []) in
+    (match wres r with
+     | None, h -> Some (h ^ " -")
+     | Some bs, h ->
+       let back = (match dec_frame bs with
+         | None -> "Fail"
+         | Some ((sb, _), _) ->
+           (match dec_head strings contigs sb with
+            | None -> "Fail"
+            | Some (hh, _) ->
+              String.concat "|" [
+                text_of hh.h_chrom;
+                (match hh.h_pos with None -> "." | Some p -> dec_of_z p);
+                (match hh.h_qual with None -> "." | Some q -> hex8 q);
+                show_strs ";" hh.h_ids; hex_of_bytes hh.h_ref; show_strs "," hh.h_alts;
+                String.concat ";" (List.map text_of hh.h_filters);
+                dec_of_z hh.h_n_info; dec_of_z hh.h_n_fmt; dec_of_z hh.h_n_sample ])) in
+       Some (h ^ " " ^ back))
+  | _ -> Some "HeaderErr -"
+
 let handle kind a =
   match kind with
-  | "ii" -> both (enc_info_int (z_of_dec a.(0))) (fun bs -> rres show_rvalue (dec_info_int bs))
-  | "iv" -> both (enc_info_ints (opt_list a.(0))) (fun bs -> rres show_rvalue (dec_info_ints bs))
-  | "if" -> both (enc_info_float (z_of_dec a.(0))) (fun bs -> rres show_rvalue (dec_info_float bs))
-  | "ifv" -> both (enc_info_floats (opt_list a.(0))) (fun bs -> rres show_rvalue (dec_info_floats bs))
+  | "hd" -> hd a
+  | "sm" -> let d = sm_both (sm_lines a.(0)) (sm_lines a.(1)) in Some ("W=" ^ d ^ "|R=" ^ d)
+  | "ic" -> both (I "X") (enc_info_char (byte_of_hex a.(0))) (fun bs -> rfail show_sval (dec_info_char bs))
+  | "icv" -> both (I "X") (enc_info_chars (opt_char_list a.(0))) (fun bs -> rfail show_sval (dec_info_chars bs))
+  | "isv" -> both (I "X") (enc_info_strs (opt_hex_list a.(0))) (fun bs -> rfail show_sval (dec_info_strs bs))
+  | "fc" -> let v = per_sample byte_of_hex a.(0) in
+      both (F ("X", List.length v)) (enc_fmt_chars v) (fun bs -> rfail (show_samples (fun c -> "c" ^ hexc c)) (dec_fmt_chars (nat_of_int (List.length v)) bs))
+  | "fcv" -> let v = per_sample opt_char_list a.(0) in
+      both (F ("X", List.length v)) (enc_fmt_char_arrays v) (fun bs -> rfail (show_samples (show_list "C" hexc)) (dec_fmt_char_arrays (nat_of_int (List.length v)) bs))
+  | "fs" -> let v = per_sample bytes_of_hex a.(0) in
+      both (F ("X", List.length v)) (enc_fmt_strings v) (fun bs -> rfail (show_samples (fun x -> "s" ^ hex_of_bytes x)) (dec_fmt_strings (nat_of_int (List.length v)) bs))
+  | "fsv" -> let v = per_sample opt_hex_list a.(0) in
+      both (F ("X", List.length v)) (enc_fmt_str_arrays v) (fun bs -> rfail (show_samples (show_list "S" hex_of_bytes)) (dec_fmt_str_arrays (nat_of_int (List.length v)) bs))
+  | "ii" -> both (I "X") (enc_info_int (z_of_dec a.(0))) (fun bs -> rres show_rvalue (dec_info_int bs))
+  | "iv" -> both (I "X") (enc_info_ints (opt_list a.(0))) (fun bs -> rres show_rvalue (dec_info_ints bs))
+  | "if" -> both (I "X") (enc_info_float (z_of_dec a.(0))) (fun bs -> rres show_rvalue (dec_info_float bs))
+  | "ifv" -> both (I "X") (enc_info_floats (opt_list a.(0))) (fun bs -> rres show_rvalue (dec_info_floats bs))
   | "im" ->
-      both enc_info_missing (fun bs -> match a.(0) with
+      both (I "X") enc_info_missing (fun bs -> match a.(0) with
         | "Integer" -> rres show_rvalue (dec_info_int bs)
         | "Float" -> rres show_rvalue (dec_info_float bs)
         | _ -> rres (function None -> "." | Some x -> "s" ^ hex_of_bytes x) (dec_info_string bs))
-  | "is" -> both (enc_info_string (bytes_of_hex a.(0)))
+  | "is" -> both (I "X") (enc_info_string (bytes_of_hex a.(0)))
               (fun bs -> rres (function None -> "." | Some x -> "s" ^ hex_of_bytes x) (dec_info_string bs))
   | "fi" -> let v = scalars a.(0) in
-      both (enc_fmt_int v) (fun bs -> rres (show_back true) (dec_fmt_int (nat_of_int (List.length v)) bs))
+      both (F ("X", List.length v)) (enc_fmt_int v) (fun bs -> rres (show_back true) (dec_fmt_int (nat_of_int (List.length v)) bs))
   | "fv" -> let v = samples a.(0) in
-      both (enc_fmt_ints v) (fun bs -> rres (show_back true) (dec_fmt_ints (nat_of_int (List.length v)) bs))
+      both (F ("X", List.length v)) (enc_fmt_ints v) (fun bs -> rres (show_back true) (dec_fmt_ints (nat_of_int (List.length v)) bs))
   | "ff" -> let v = scalars a.(0) in
-      both (enc_fmt_float v) (fun bs -> rres (show_back false) (dec_fmt_float (nat_of_int (List.length v)) bs))
+      both (F ("X", List.length v)) (enc_fmt_float v) (fun bs -> rres (show_back false) (dec_fmt_float (nat_of_int (List.length v)) bs))
   | "ffv" -> let v = samples a.(0) in
-      both (enc_fmt_floats v) (fun bs -> rres (show_back false) (dec_fmt_floats (nat_of_int (List.length v)) bs))
+      both (F ("X", List.length v)) (enc_fmt_floats v) (fun bs -> rres (show_back false) (dec_fmt_floats (nat_of_int (List.length v)) bs))
   | "gt" -> let v = List.map parse_gt (split_on ';' a.(0)) in
-      both (enc_gt v) (fun bs -> rres (fun l -> String.concat ";" (List.map show_gt l)) (dec_gt (nat_of_int (List.length v)) bs))
+      both (F ("GT", List.length v)) (enc_gt v) (fun bs -> rres (fun l -> String.concat ";" (List.map show_gt l)) (dec_gt (nat_of_int (List.length v)) bs))
   | _ -> None
 
 let () = run_driver handle
